@@ -24,7 +24,8 @@ CHUNK = 1
 
 COND_ROOT = ('run_experiment(name="e1", run="./e1.sh", args=["a"], options={"k": 1})\n'
              'combine(name="all_a", deps=[":e1", "//pkg:c", "//pkg/sub:e3"])\n'
-             'combine(name="all_b", deps=["//pkg:c", "//pkg/sub:e3", ":e1"])\n')
+             'combine(name="all_b", deps=["//pkg:c", "//pkg/sub:e3", ":e1"])\n'
+             'run_command(name="solo", run="./solo.sh")\ngroup(name="solos", deps=[":solo"])\n')
 COND_PKG = ('run_experiment(name="e2", run="./e2.sh", deps=["//:e1"])\n'
             'run_command(name="c", run="./c.sh", deps=[":e2"])\n')
 COND_SUB = 'run_experiment(name="e3", run="./e3.sh")\ngroup(name="only", deps=[":e3"])\n'
@@ -39,6 +40,8 @@ CLOSURE = {
     "//pkg:c": {"//:e1", "//pkg:e2"},
     "//pkg/sub:e3": {"//pkg/sub:e3"},
     "//pkg/sub:only": {"//pkg/sub:e3"},
+    "//:solo": set(),      # nothing archivable in the closure: must be refused, not turned into "archive everything"
+    "//:solos": set(),
 }
 RICH = {"files": {"data/nested/deep.bin": "\x00\xff\xfe binary \n", "empty": "", "top.txt": "hello\n"},
         "dirs": ["emptydir"], "links": {"link-to-top": "top.txt"}, "stdout": "out\n\xff", "stderr": "err\n"}
